@@ -656,7 +656,17 @@ func aliasGen(g *G, tier string) []M {
 		b := g.NodeList(o2)
 		switch g.Int(12) {
 		case 0, 1:
-			ops = append(ops, M{"op": "alias", "what": "copyNode", "n": g.Node("x", 0.8), "share": g.Chance(0.4)})
+			nd := g.Node("x", 0.8)
+			if at, ok := nd["a"].(M); ok {
+				for _, r := range asList(at["ExternalReferences"]) {
+					if rm, ok := r.(M); ok {
+						if _, has := rm["h"]; !has && g.Chance(0.5) {
+							rm["h"] = []any{}
+						}
+					}
+				}
+			}
+			ops = append(ops, M{"op": "alias", "what": "copyNode", "n": nd, "share": g.Chance(0.4)})
 		case 2:
 			e := M{"ty": float64(EdgeTypes[g.Int(6)]), "src": "a", "tos": []any{"b", "c", "a"}[:g.Int(4)]}
 			ops = append(ops, M{"op": "alias", "what": "copyEdge", "e": e})
@@ -665,7 +675,11 @@ func aliasGen(g *G, tier string) []M {
 			// same JSON value; pointer sharing inside one operand is added below
 			ops = append(ops, M{"op": "alias", "what": "copyPerson", "p": g.Person(3), "share": g.Chance(0.5)})
 		case 4:
-			ops = append(ops, M{"op": "alias", "what": "copyRef", "r": g.Ref()})
+			r := g.Ref()
+			if _, has := r["h"]; !has && g.Chance(0.5) {
+				r["h"] = []any{} // an initialised but empty map: a copy must still get its own
+			}
+			ops = append(ops, M{"op": "alias", "what": "copyRef", "r": r})
 		case 5:
 			ops = append(ops, M{"op": "alias", "what": "copyNL", "a": a})
 		case 6, 7:
@@ -675,6 +689,24 @@ func aliasGen(g *G, tier string) []M {
 		default:
 			// read-only operations on shared operands, plus a serialisable document
 			doc := g.serializableDoc()
+			if g.Chance(0.5) {
+				// comparisons that go past the size checks: the same list with several root elements
+				// in another, unsorted order, one of them different
+				ids := []any{}
+				for _, n := range asList(a["nodes"]) {
+					ids = append(ids, n.(M)["id"])
+				}
+				if len(ids) >= 2 {
+					ra := shuffleAny(g, ids)
+					rb := shuffleAny(g, ids)
+					if g.Chance(0.5) {
+						rb[0] = "zz-other-root"
+					}
+					a["roots"] = ra
+					b = g.permuteNL(a)
+					b["roots"] = rb
+				}
+			}
 			ops = append(ops, M{"op": "snap", "a": a, "b": b, "n": g.matchNode("p1"), "m": g.Node("p2", 0.6), "doc": doc})
 		}
 	}
